@@ -285,3 +285,12 @@ func init() {
 		}
 	}
 }
+
+func init() {
+	extraDumps["effsig"] = func(t *Tree, name string) {
+		run, _ := registryMaps(t)
+		for _, k := range sortedKeys(run) {
+			fmt.Printf("%-16s %s\n", k, effectSignature(t, run[k]))
+		}
+	}
+}
